@@ -47,6 +47,8 @@ var c07Kinds = []c07Kind{
 	{name: "unterminated-block-with-closed-inner-blocks", src: "{% if true %}", parseTime: true, unclosed: true,
 		body: "\nx{% for i in (1..1) %}y{% endfor %}\n{% comment %}c{% endcomment %}{% raw %}r{% endraw %}{% case 1 %}{% when 1 %}{% endcase %}"},
 	{name: "unterminated-capture-with-closed-inner-block", src: "{% capture c %}", parseTime: true, unclosed: true, body: "{% unless false %}u{% endunless %}\n"},
+	{name: "unterminated-comment", src: "{% comment %}", parseTime: true, unclosed: true, body: " c {{ x }} {% if %}"},
+	{name: "unterminated-raw", src: "{% raw %}", parseTime: true, unclosed: true, body: " r {{ x }}"},
 	{name: "stray-end-tag", src: "{% endraw %}", parseTime: true},
 	{name: "stray-clause-tag", src: "{% when 1 %}", parseTime: true},
 	{name: "include-missing", src: `{% include "c07_no_such_file.html" %}`, wraps: "notexist"},
@@ -267,7 +269,7 @@ func init() {
 	explore.Register(&explore.Prop{
 		ID:    "C07",
 		Level: "exploration",
-		Rule: "22 kinds of failing construct (syntax error in object / tag arguments, unknown tag, unknown filter, filter's own error in object/assign/if, division by zero, type error, strict undefined variable, unterminated blocks, stray end/clause tags, include of a missing file / non-string, bad cycle) placed in the taken body of every nesting path of depth 0..2 (quick) / 0..3 (thorough) over 7 enclosing forms, " +
+		Rule: "24 kinds of failing construct (syntax error in object / tag arguments, unknown tag, unknown filter, filter's own error in object/assign/if, division by zero, type error, strict undefined variable, unterminated blocks, stray end/clause tags, include of a missing file / non-string, bad cycle) placed in the taken body of every nesting path of depth 0..2 (quick) / 0..3 (thorough) over 7 enclosing forms, " +
 			"with 0/1/2 newlines + filler independently before every opener and before the construct, with and without a newline inside every opener tag, parsed with path in {none, dir/t.html} x start line in {0,1,7}, through ParseTemplateLocation+Render and ParseAndRender; " +
 			"class = (kind, fails at parse time); distinct_nontrivial counts distinct classes",
 		Assumptions: []string{
